@@ -74,7 +74,7 @@ struct SeqEngine : Engine
     Result execute(Plan const &p, Stats &st, FILE *log) override
     {
         Ctx c(st, log);
-        g_req_per_op.clear();
+        g_req_per_op.clear(); g_heavy_plan = false;
         g_cmp_forbid_lo = 0; g_cmp_forbid_len = 0; g_cmp_forbidden_hit = false; g_cmp_key = nullptr; g_cmp_key_on_left = false;
         int const target = (int)p.knob("target", 0);
         // Bernoulli multi-fault configuration
@@ -114,8 +114,15 @@ struct SeqEngine : Engine
         uint64_t total = 0; for (auto n : req) total += n;
         st.add("n.alloc_requests_in_faultfree_histories", total);
         uint64_t budget = tier ? 1200 : 600;
+        if (g_heavy_plan) { budget = 16; st.add("n.heavy_history_enumerated_with_small_budget"); } // each execution repeats a 70 000-element fill
         Rng r(seed ^ 0x5eedfa17ull);
-        for (size_t j = 0; j < req.size() && j < base.ops.size(); ++j)
+        // op order of the enumeration: as written, except that the op after a long preparation phase comes first (its small
+        // budget would otherwise be spent before reaching it)
+        std::vector<size_t> order;
+        bool const heavy = g_heavy_plan; int const heavy_op = g_heavy_op;
+        if (heavy && heavy_op >= 0 && (size_t)heavy_op < req.size()) order.push_back((size_t)heavy_op);
+        for (size_t j = 0; j < req.size() && j < base.ops.size(); ++j) if (!(heavy && (int)j == heavy_op)) order.push_back(j);
+        for (size_t j : order)
             for (uint32_t k = 0; k < req[j]; ++k)
             {
                 if (!budget) { st.add("n.enumeration_truncated_by_budget"); return; }
